@@ -998,7 +998,7 @@ def _describe(b, r):
 
 def coq_eval_graph(res):
     """All cases of one graph against the model; returns failing indices, error."""
-    return common.coq_failing(IMPORTS, 'chk', res['cases'], shard=100000, defs=res['defs'], timeout=900)
+    return common.coq_failing(IMPORTS, 'chk', res['cases'], shard=100000, defs=res['defs'], timeout=2400)
 
 
 # ======================================================================================
